@@ -90,9 +90,9 @@ var expectedProbes = map[string][]string{
 	"C15": {"probe.merge.chain>=2", "probe.vec.boundary-batch"},
 	"C16": {"probe.vc.entry-shared-across-except-bitmaps", "probe.vc.eviction-then-reload", "fault.expiry.evictions", "probe.yield.zapx:veccache.window.create", "probe.yield.zapx:veccache.window.docvec"},
 	"C17": {"fault.rlimit", "fault.rlimit-transient", "fault.devfull", "fault.devnull", "fault.dir", "fault.noparent", "fault.writer.mode0", "fault.writer.mode1", "fault.strace.fsync", "fault.strace.close", "fault.strace.write", "probe.io.over-longer-file", "probe.io.over-shorter-file"},
-	"C18": {"probe.cancel.midway-aborted", "fault.cancel.aborted", "fault.cancel.finished-normally", "fault.cancel.concurrent-aborted", "fault.cancel.concurrent-finished"},
-	"C19": {"fault.engine.IndexFactory", "fault.engine.AddWithIDs", "fault.engine.WriteIndexIntoBuffer", "fault.engine.ReadIndexFromBuffer", "fault.engine.ReconstructBatch", "fault.engine.Train", "fault.engine.SetDirectMap"},
-	"C20": {"probe.ref.merge-of-held-segment", "probe.ref.failed-merge-of-held-segment", "probe.open.damaged-rejected", "probe.yield.zapx:seg.addRef", "probe.yield.zapx:seg.decRef"},
+	"C18": {"probe.io.over-longer-file", "probe.cancel.midway-aborted", "fault.cancel.aborted", "fault.cancel.finished-normally", "fault.cancel.concurrent-aborted", "fault.cancel.concurrent-finished"},
+	"C19": {"probe.io.over-longer-file", "fault.engine.IndexFactory", "fault.engine.AddWithIDs", "fault.engine.WriteIndexIntoBuffer", "fault.engine.ReadIndexFromBuffer", "fault.engine.ReconstructBatch", "fault.engine.Train", "fault.engine.SetDirectMap"},
+	"C20": {"probe.ref.merge-of-held-segment", "probe.syn.unloadable-thesaurus-world", "probe.ref.failed-merge-of-held-segment", "probe.open.damaged-rejected", "probe.yield.zapx:seg.addRef", "probe.yield.zapx:seg.decRef"},
 }
 
 // ---------------------------------------------------------------------------
